@@ -178,3 +178,14 @@ impl PartialOrd for R {
     #[verifier::external_body] fn gt(&self, other: &R) -> (b: bool) ensures b == gt_s(*self, *other) { unimplemented!() }
     #[verifier::external_body] fn ge(&self, other: &R) -> (b: bool) ensures b == ge_s(*self, *other) { unimplemented!() }
 }
+
+// Laws that every lawful scalar satisfies and that hold for f64 exactly (they make the contracts insensitive to harmless
+// refactorings such as `b + a` for `a + b` or `u <= c` for `c >= u`):
+//   A-COMM       addition and multiplication are commutative (IEEE 754: bit-exact, NaN included up to payload)
+//   A-PARTIALORD the documented duality of PartialOrd:  a > b  <=>  b < a,   a >= b  <=>  b <= a
+pub broadcast axiom fn ax_add_comm(a: R, b: R) ensures #[trigger] add_s(a, b) == add_s(b, a);
+pub broadcast axiom fn ax_mul_comm(a: R, b: R) ensures #[trigger] mul_s(a, b) == mul_s(b, a);
+pub broadcast axiom fn ax_gt_dual(a: R, b: R) ensures #[trigger] gt_s(a, b) == lt_s(b, a);
+pub broadcast axiom fn ax_ge_dual(a: R, b: R) ensures #[trigger] ge_s(a, b) == le_s(b, a);
+pub broadcast axiom fn ax_eq_sym(a: R, b: R) ensures #[trigger] eq_s(a, b) == eq_s(b, a);
+pub broadcast group scalar_laws { ax_add_comm, ax_mul_comm, ax_gt_dual, ax_ge_dual, ax_eq_sym }
